@@ -73,6 +73,10 @@ def run(ck):
     ck.floor("directive pack analyses", npack, 7 * len(cases))
     DEC.check_directive_decoders(ck, P, cases)
     DEC.check_equalities(ck, P)
+    # decoded lists (Finished filestore responses, NAK segment requests) and packed buffers are built in local
+    # accumulators: none of them is dropped on one exit while another exit keeps it
+    from ..keep_rule import check_keep
+    check_keep(ck, ck.repo, ["cfdp/pdu"], floor=1)
     # "data-field length equal to the number of octets after the header" also holds for a PDU whose parameters were
     # changed through its setters: the mutated-versus-fresh sequences of C11, per directive kind, under two cases
     from ..report import run_parallel
